@@ -334,6 +334,9 @@ func (vc *VC) iteVal(c Term, a, b Val) Val {
 		}
 		return out
 	}
+	if a.View != nil || b.View != nil {
+		panic(engErr("merge of slices of interior arrays is outside the subset"))
+	}
 	if a.Loc != nil || b.Loc != nil {
 		if a.Loc != nil && b.Loc != nil && fmt.Sprint(*a.Loc) == fmt.Sprint(*b.Loc) {
 			return a
@@ -467,6 +470,24 @@ func (fx *fexec) execInstr(in ssa.Instruction, st *State) {
 			n += len(s)
 		}
 		fmt.Fprintf(os.Stderr, "%s%s: %s  [script %d lines, %d bytes, reach %d bytes]\n", strings.Repeat("  ", fx.depth), fx.posOf(in), in.String(), len(vc.script), n, len(st.reach.S))
+	}
+	// a slice of an array that lives inside another object (a view) is modelled only as an
+	// operand of copy and len
+	for _, op := range in.Operands(nil) {
+		if *op == nil {
+			continue
+		}
+		if v, ok := fx.env[*op]; ok && v.View != nil {
+			okUse := false
+			if c, isCall := in.(*ssa.Call); isCall {
+				if b, isB := c.Call.Value.(*ssa.Builtin); isB && (b.Name() == "copy" || b.Name() == "len") {
+					okUse = true
+				}
+			}
+			if !okUse {
+				panic(engErr("slice of an interior array used other than by copy/len: " + in.String() + " at " + fx.posOf(in)))
+			}
+		}
 	}
 	switch x := in.(type) {
 	case *ssa.BinOp:
@@ -673,7 +694,11 @@ func (fx *fexec) sliceOp(x *ssa.Slice, st *State) Val {
 		// (aliasing); only supported for freshly allocated local arrays that are no longer used directly.
 		l := vc.locOfPtr(base)
 		if l.Root != "C" || len(l.Path) != 0 {
-			panic(engErr("slicing an interior array is outside the subset"))
+			// an array inside another object: a view, usable by copy and len only
+			if x.Max != nil {
+				panic(engErr("three-index slice of an interior array is outside the subset"))
+			}
+			return Val{Ty: vc.resolve(x.Type()), View: &arrView{loc: l, lo: lo, n: vc.define(x.Name()+"_n", sub(hi, lo))}}
 		}
 		comp, srt := vc.elemComp(at.Elem())
 		// move the array contents into the element heap under the same reference
